@@ -5,8 +5,11 @@ import contextlib
 import datetime as _dt
 import io
 import itertools
+import json
+import threading
 
 from . import common
+from . import sched
 from .common import Check, Violation, cz, cbool, clist, copt, ctuple
 
 PH = {"nascent": 0, "active": 1, "senescent": 2, "apoptotic": 3, "terminated": 4}
@@ -17,6 +20,22 @@ BASE = _dt.datetime(2026, 1, 1)
 US = _dt.timedelta(microseconds=1)
 MIN, HOUR, DAY = 60, 3600, 86400
 SRC = "operon_ai/state/telomere.py"
+
+
+class CbError(Exception):
+    """an application exception class of the callback's own"""
+
+
+class CbAbort(BaseException):
+    """... and one that is not an Exception"""
+
+
+# what a failing callback raises: Exception subclasses and BaseException subclasses that are not Exceptions
+EXC = {"ValueError": ValueError, "ConnectionError": ConnectionError, "RuntimeError": RuntimeError, "KeyError": KeyError,
+       "ZeroDivisionError": ZeroDivisionError, "StopIteration": StopIteration, "CbError": CbError,
+       "KeyboardInterrupt": KeyboardInterrupt, "SystemExit": SystemExit, "GeneratorExit": GeneratorExit,
+       "CbAbort": CbAbort}
+ALL_TRANS = [[0, 1], [1, 2], [2, 1], [0, 3], [1, 3], [2, 3], [3, 3], [0, 4], [1, 4], [2, 4], [3, 4], [4, 4]]
 
 
 def td_us(td):
@@ -251,6 +270,21 @@ class C09(Check):
             "walks: max_operations 10..12 (and 15..1000), ticks that bring the length to just above / exactly / just below 10% and 20% "
             "of max_operations with the length still positive, then renew/tick around it. 2 histories per quick run (thorough: "
             "0.1%) log more than 1000 lifecycle events (event-log cap). "
+            "FAILING CALLBACKS (n/7 more histories + exhaustive): the history language has the step ['cb', pairs, sen, class]: from then on "
+            "on_phase_change raises for the listed (old, new) pairs and, with sen, on_senescence raises - an object of one of 11 "
+            "classes (ValueError, ConnectionError, RuntimeError, KeyError, ZeroDivisionError, StopIteration, an application "
+            "Exception class; KeyboardInterrupt, SystemExit, GeneratorExit, an application BaseException class); the caller handles "
+            "the exception and goes on. The random ones are away / depletion / random histories in which 15-60% of the transition-making "
+            "calls are preceded by a behaviour aimed at the transition they are about to make (half of them followed by 'returns "
+            "again' = a callback that fails once, a quarter by the same call repeated); exhaustive: all histories of depth <= 2 over "
+            "a 9-call alphabet under 'every notification raises' / 'on_senescence raises' / both, from the start or during the last "
+            "call only, depth 3 (thorough: 4) under the first. "
+            "TWO THREADS (n/10 more cases + exhaustive): a sequential prefix (fresh / started / used up to SENESCENT / error limit / "
+            "apoptotic / terminated / random), then two real threads with 1..3 calls each (tick, renew, terminate, trigger_apoptosis, "
+            "record_error, start, check_timeouts, heartbeat, reset) under the deterministic scheduler harness/sched.py: a choice point "
+            "at every line of telomere.py executed outside the lock and at every acquire / release; the schedule = which thread goes "
+            "first + up to 3 choice points at which the turn passes to the other thread. Exhaustive: 4 prefixes x 5 x 3 one-call "
+            "programs (thorough 9 x 5) x either thread first x the turn passed at no / the 1st..4th (thorough 7th) choice point. "
             "non-trivial = at least one phase transition; "
             "distinct by case content")
     LEVEL_TEXT = ("Coq theorems over all configurations, all states / all histories (no bound on length) about a hand-written "
@@ -264,18 +298,33 @@ class C09(Check):
                   "error-count/error-rate/lifetime/idle limits force SENESCENT (an exceeded lifetime limit stays exceeded over every "
                   "reset-free history with a forward clock of any step size, an exceeded idle limit over every history without "
                   "tick/heartbeat/reset), every call returns (no raise, no hang in the model; "
-                  "lock discipline checked on the call graph regenerated from the source on every run). The model is tied to the "
+                  "lock discipline checked on the call graph regenerated from the source on every run). The same clauses are proved "
+                  "for lifecycle callbacks that RAISE (step_cb / histories of (callback behaviour, call) pairs, any behaviour: which "
+                  "notifications raise, on_senescence raises): notifications legal and chained to the phase afterwards (an announced "
+                  "transition is never taken back), TERMINATED absorbing, terminate() terminates, dead phases never tick, tick True "
+                  "iff ACTIVE, renewal refused, limits force SENESCENT (returned False or handed the exception back), range + "
+                  "Hayflick, every call returns or hands back its callback's exception; and for two threads (a linearisation "
+                  "merge lin a b is a history: TERMINATED absorbing / terminate wins / range in every interleaving). The model is tied to the "
                   "code by evaluating it in Coq (vm_compute, PrimFloat classifiers) on every generated history the implementation ran.")
     LEVEL_NOTE = ("Trusts: Coq kernel+VM; the correspondence harness; the ast translator of the lock structure; `with lock` "
-                  "semantics of CPython; user callbacks do not re-enter the lifecycle. Axioms: none (Print Assumptions: closed "
+                  "semantics of CPython; user callbacks do not re-enter the lifecycle (they may raise); a two-thread execution is "
+                  "the sequential execution of the calls in the order of their lock acquisitions (checked on every scheduled run, "
+                  "not proved). Axioms: none (Print Assumptions: closed "
                   "under the global context).")
     TECHNIQUE = ("Coq proof by case analysis + invariant/potential induction over histories; source-to-Gallina translation of all "
                  "twelve Telomere methods (translators/pyimp.py, effects shape) proved equal to the model's step on every state, "
                  "configuration and operation (c09_gen_*); ast translator + reflective check of the lock call graph; vm_compute "
-                 "correspondence against Telomere on a virtual clock with a watchdog per call")
+                 "correspondence against Telomere on a virtual clock with a watchdog per call; scripted raising callbacks; real "
+                 "threads under a deterministic scheduler (harness/sched.py), linearisation by lock-acquisition order")
     TRUSTED = ["translator harness/c09.py:lock_structure (Python ast -> lock kind + call graph, fail closed)",
                "modelled not verified: `with self._lock` gives mutual exclusion and a non-reentrant Lock blocks its own holder; "
-               "on_phase_change/on_senescence callbacks return and do not call back into the lifecycle",
+               "on_phase_change/on_senescence callbacks do not call back into the lifecycle (they return or RAISE: modelled)",
+               "two threads: harness/sched.py (real threads, sys.settrace line events outside the lock, the object's lock replaced "
+               "by a scheduler-aware lock of the same reentrancy); the linearisation fed to the model is the observed order of "
+               "outermost lock acquisitions, attributes are snapshotted at acquisition and release; a call that never takes the "
+               "lock is linearised when it returns (the harness thread takes the lock for the snapshots); the model treats a "
+               "locked method body as atomic - that the code does all its phase reads / writes under the lock is what the "
+               "scheduled runs test, it is not proved from the source",
                "the hours/minutes -> timedelta conversion of the constructor is outside the model: the stored limits are read "
                "back from the object (microseconds) and compared with the model's configuration on every case",
                "float classifiers: theorems hold for every classifier; the executed model uses PrimFloat (binary64) division and "
@@ -291,6 +340,12 @@ class C09(Check):
                    "value in force at that fill); the owner assigns attributes between calls, as plain attribute assignments "
                    "(max_lifetime / idle_timeout as timedelta or None, as the constructor stores them)",
                    "reset starts a new lifecycle (documented 'for testing'): absorption of TERMINATED is demanded for every other call",
+                   "a call that hands back the exception raised by the caller's own callback counts as a call that returned (the "
+                   "property's 'every lifecycle call returns' is about hangs); the state it leaves must satisfy every other clause; "
+                   "a renew() whose SENESCENT->ACTIVE notification raised counts as a renewal when the renewal count moved; the "
+                   "exception class is invisible to the model (11 classes are driven)",
+                   "two threads: the clauses are read on the linearisation (order of lock acquisitions): 'before' = the attributes "
+                   "when the call acquired the lock; configuration attributes are not assigned while two threads run",
                    "the clock only moves between calls (virtual clock rebinding telomere.datetime), by any amount; the two "
                    "expiry-persistence theorems assume it does not move backwards"]
 
@@ -299,6 +354,7 @@ class C09(Check):
         self.kind = None
         self.autostart_reacquires = False
         self.hangs_seen = 0
+        self._lin = {}       # linearisation observed for a two-thread case (by case content): input of the model
 
     # -- translator --------------------------------------------------------
     def translate(self):
@@ -630,9 +686,106 @@ class C09(Check):
             ops.append(self._rand_op(rng, False, cfg))
         return {"cfg": cfg, "ops": ops, "drive": {"cb_sen": rng.random() < 0.5, "defaults": rng.random() < 0.5}}
 
+    # -- callbacks that raise ------------------------------------------------
+    EXC_NAMES = sorted(EXC)
+
+    def _rand_cb(self, rng, aim=None):
+        """["cb", pairs for which on_phase_change raises, on_senescence raises, exception class]"""
+        k = rng.random()
+        if k < 0.15:
+            return ["cb", [], False, "ValueError"]                # the callbacks return again
+        if aim is not None and k < 0.6:
+            pairs = [aim]
+        elif k < 0.75:
+            pairs = [rng.choice(ALL_TRANS)]
+        elif k < 0.9:
+            pairs = rng.sample(ALL_TRANS, rng.randint(2, 4))
+        else:
+            pairs = [list(t) for t in ALL_TRANS]                  # every notification fails
+        sen = rng.random() < 0.25
+        if sen and rng.random() < 0.4:
+            pairs = []
+        return ["cb", sorted(pairs), sen, rng.choice(self.EXC_NAMES)]
+
+    def _cb_case(self, rng):
+        """A history in which the lifecycle callbacks fail: the behaviour of on_phase_change / on_senescence is set
+        before some of the calls (often aimed at the transition the next call is about to make, and back to
+        'returns' after it: a callback that fails once), the caller handles the exception and goes on."""
+        k = rng.random()
+        if k < 0.3:
+            base = self._away_case(rng)
+        elif k < 0.45:
+            base = self._deplete_case(rng)
+            if base["cfg"]["max_ops"] > 12:
+                base["cfg"]["max_ops"] = rng.choice([10, 11, 12])
+        else:
+            cfg = self._rand_cfg(rng)
+            ops = [self._rand_op(rng, False, cfg, rng.random() < 0.2) for _ in range(rng.randint(2, 12))]
+            if rng.random() < 0.6:
+                ops.insert(0, ["start"] if rng.random() < 0.5 else ["tick", 1])
+            base = {"cfg": cfg, "ops": ops}
+        aim_of = {"start": [[0, 1]], "tick": [[0, 1], [1, 2], [1, 2]], "err": [[1, 2]], "check": [[1, 2]],
+                  "renew": [[2, 1]], "apop": [[1, 3], [2, 3], [0, 3]], "term": [[1, 4], [2, 4], [3, 4], [0, 4], [4, 4]]}
+        ops = []
+        p = rng.choice([0.15, 0.3, 0.6])
+        for o in base["ops"]:
+            if o[0] in aim_of and rng.random() < p:
+                ops.append(self._rand_cb(rng, rng.choice(aim_of[o[0]])))
+                ops.append(o)
+                if rng.random() < 0.5:
+                    ops.append(["cb", [], False, "ValueError"])
+                    if rng.random() < 0.5:
+                        ops.append(list(o))                      # the caller tries the same call again
+            else:
+                ops.append(o)
+        if not any(o[0] == "cb" for o in ops):
+            ops.insert(rng.randrange(len(ops) + 1), self._rand_cb(rng))
+        d = self._rand_drive(rng, len(ops))
+        d.pop("cb_phase", None)
+        return {"cfg": base["cfg"], "ops": ops, "drive": d}
+
+    # -- two threads -----------------------------------------------------------
+    THREAD_OPS = [["tick", 1], ["tick", 1], ["renew", None, True], ["renew", None, True], ["renew", 1, False], ["term"], ["term"],
+                  ["apop"], ["err"], ["start"], ["check"], ["hb"], ["reset"], ["tick", 2]]
+
+    def _world_pre(self, rng, cfg):
+        k = rng.random()
+        if k < 0.1:
+            return []
+        if k < 0.3:
+            return [["start"]]
+        if k < 0.65:        # used up: SENESCENT (or close to it)
+            return [["start"]] + [["tick", 1]] * rng.choice([cfg["max_ops"], cfg["max_ops"], max(0, cfg["max_ops"] - 1)])
+        if k < 0.75:
+            return [["start"]] + [["err"]] * cfg["thr"]
+        if k < 0.85:
+            return [["start"], ["tick", 1], rng.choice([["apop"], ["term"]])]
+        return [["start"]] + [rng.choice([["tick", 1], ["err"], ["renew", None, True], ["adv", 5], ["check"]])
+                              for _ in range(rng.randint(1, 4))]
+
+    def _world_case(self, rng):
+        """A sequential prefix, then two threads with one to three calls each, under a schedule: which thread goes first,
+        and up to three choice points at which the turn passes to the other thread (otherwise a thread keeps the turn
+        until it finishes or has to wait for the lock)."""
+        cfg = self._rand_cfg(rng)
+        cfg["max_ops"] = rng.choice([1, 2, 2, 3, 4, 10])
+        if rng.random() < 0.85:
+            cfg["renew"] = True
+        ops = self._world_pre(rng, cfg)
+        threads = [[list(rng.choice(self.THREAD_OPS)) for _ in range(rng.choice([1, 1, 2, 3]))] for _t in (0, 1)]
+        sw = sorted(set(rng.randrange(0, 16) for _ in range(rng.choice([0, 1, 1, 2, 2, 3]))))
+        return {"cfg": cfg, "ops": ops, "threads": threads, "sched": {"first": rng.randrange(2), "switch": sw}}
+
     def gen_cases(self, rng, n):
         out = []
         n_long = 2 if n <= 4000 else n // 1000
+        n_world = n // 10                # two-thread cases (each is a scheduled run of real threads) ...
+        n_cb = n // 7                    # ... and histories with failing callbacks, on top of the n histories below
+        wrng = __import__("random").Random(rng.random())
+        for _ in range(n_cb):
+            out.append(self._cb_case(wrng))
+        for _ in range(n_world):
+            out.append(self._world_case(wrng))
         for j in range(n):
             if j >= n - n_long:
                 out.append(self._long_case(rng))     # (last: a first disagreement is then reported on a short case)
@@ -706,6 +859,40 @@ class C09(Check):
                     if cfg is A:
                         case["drive"] = {"silent": False, "cb_sen": True}
                     out.append(case)
+        # failing callbacks: on_phase_change raises on EVERY notification / on_senescence raises / both, for one call
+        # (then they return again) or for good, all histories of depth <= 3 (thorough: 4) over a 9-call alphabet
+        F = {"max_ops": 2, "thr": 2, "renew": True, "life_s": None, "idle_s": 5}
+        calls = [["start"], ["tick", 1], ["err"], ["check"], ["renew", None, True], ["apop"], ["term"], ["reset"], ["adv", 5]]
+        allp = [list(t) for t in ALL_TRANS]
+        for d in ([1, 2, 3] if self.tier == "quick" else [1, 2, 3, 4]):
+            for combo in itertools.product(calls, repeat=d):
+                for j, (pairs, sen, exc) in enumerate(((allp, False, "ValueError"), ([], True, "KeyboardInterrupt"),
+                                                        (allp, True, "CbError"))):
+                    if d >= 3 and j != (0 if d == 3 else 2):
+                        continue
+                    out.append({"cfg": dict(F), "ops": [["cb", pairs, sen, exc]] + [list(o) for o in combo]})
+                    if d >= 3:
+                        continue
+                    # ... failing during the LAST call only
+                    out.append({"cfg": dict(F), "ops": [list(o) for o in combo[:-1]] + [["cb", pairs, sen, exc], list(combo[-1])]})
+        # two threads, one call each, after four prefixes (fresh / started / used up = SENESCENT / apoptotic): every pair
+        # of calls, either thread first, the turn passed to the other thread at no / the 1st .. 4th (thorough: 7th) choice point
+        W = {"max_ops": 2, "thr": 2, "renew": True, "life_s": None, "idle_s": None}
+        pres = [[], [["start"]], [["start"], ["tick", 1], ["tick", 1]], [["start"], ["apop"]]]
+        a_ops = [["tick", 1], ["err"], ["renew", None, True], ["term"], ["apop"]]
+        b_ops = [["renew", None, True], ["term"], ["tick", 1]]
+        ks = range(1, 5)
+        if self.tier != "quick":
+            a_ops = a_ops + [["start"], ["check"], ["reset"], ["hb"]]
+            b_ops = b_ops + [["apop"], ["err"]]
+            ks = range(1, 8)
+        for pre in pres:
+            for oa in a_ops:
+                for ob in b_ops:
+                    for first in (0, 1):
+                        for sw in ([[]] + [[k] for k in ks]):
+                            out.append({"cfg": dict(W), "ops": [list(o) for o in pre], "threads": [[list(oa)], [list(ob)]],
+                                        "sched": {"first": first, "switch": sw}})
         return out
 
     # -- implementation ----------------------------------------------------
@@ -716,20 +903,40 @@ class C09(Check):
         silent = drive.get("silent", True)
         cb_phase = drive.get("cb_phase", True)
         use_defaults = bool(drive.get("defaults"))
+        failing = any(o[0] == "cb" for o in case["ops"])       # the callbacks' behaviour is scripted (["cb", ...])
+        world = "threads" in case
+        if failing or world:
+            cb_phase = True
         saved = TM.datetime
         TM.datetime = VDatetime
         _Clock.us = 0
         stream = []
         sen_calls = []
         console = io.StringIO()
+        # what the two callbacks do during the calls that follow: on_phase_change raises for the (old, new) pairs in
+        # `pc`, on_senescence raises when `sen`; `exc` is the class; `raised` the exception object of the current call
+        cbs = {"pc": set(), "sen": False, "exc": "ValueError", "raised": None}
+
+        def on_phase_change(a, b):
+            t = (PH[a.value], PH[b.value])
+            stream.append(t)
+            if t in cbs["pc"]:
+                cbs["raised"] = EXC[cbs["exc"]]("phase-change observer failed")
+                raise cbs["raised"]
+
+        def on_senescence(r):
+            sen_calls.append(REASON.get(r.value, 9))
+            if cbs["sen"]:
+                cbs["raised"] = EXC[cbs["exc"]]("senescence handler failed")
+                raise cbs["raised"]
         try:
             # console output (silent=False) is captured; it is not an observation and must not change any
             with contextlib.redirect_stdout(console):
                 kw = {}
                 if cb_phase:
-                    kw["on_phase_change"] = lambda a, b: stream.append((PH[a.value], PH[b.value]))
-                if drive.get("cb_sen"):
-                    kw["on_senescence"] = lambda r: sen_calls.append(REASON.get(r.value, 9))
+                    kw["on_phase_change"] = on_phase_change
+                if drive.get("cb_sen") or failing:
+                    kw["on_senescence"] = on_senescence
                 if silent:
                     kw["silent"] = True
                 elif not use_defaults:
@@ -779,6 +986,15 @@ class C09(Check):
                     if not cb_phase:
                         evs0 = tel.get_events(1)
                         last_event = evs0[-1] if evs0 else None
+                    cbs["raised"] = None
+                    if kind == "cb":
+                        # not a call: from now on the callbacks behave as said (the model pairs every call with the
+                        # behaviour in force during it)
+                        cbs["pc"] = {tuple(t) for t in o[1]}
+                        cbs["sen"] = bool(o[2])
+                        cbs["exc"] = o[3]
+                        steps.append({"op": o, "cb": True})
+                        continue
                     if kind == "adv":
                         _Clock.us += adv_us(o)
                         fn = None
@@ -840,10 +1056,16 @@ class C09(Check):
                             obs.append([-999])
                             steps.append({"op": o, "hang": True, "before": before, "t_us": t_before})
                             break
-                        except ZeroDivisionError:
-                            rc, raised = -2, "ZeroDivisionError"
-                        except Exception as e:  # any other exception class
-                            rc, raised = -4, type(e).__name__
+                        except BaseException as e:  # noqa
+                            if e is cbs["raised"]:
+                                # the caller handles the exception of its own callback and goes on
+                                rc, raised = -5, "callback:" + type(e).__name__
+                            elif isinstance(e, ZeroDivisionError):
+                                rc, raised = -2, "ZeroDivisionError"
+                            elif isinstance(e, Exception):  # any other exception class
+                                rc, raised = -4, type(e).__name__
+                            else:
+                                raise
                     after = snap()
                     tr = stream[n0:] if cb_phase else logged_transitions(last_event)
                     row = [rc] + after + [x for p in tr for x in p]
@@ -861,34 +1083,177 @@ class C09(Check):
                     steps.append({"op": o, "ret": rc, "raised": raised, "before": before, "after": after,
                                   "tr": list(tr), "t_us": _Clock.us, "sen": sen_calls[s0:],
                                   "printed": console.getvalue()[c0:] if not silent else ""})
-                return obs, {"steps": steps, "life_us": life_us, "idle_us": idle_us, "max_events": max_events}
+                tr_out = {"steps": steps, "life_us": life_us, "idle_us": idle_us, "max_events": max_events}
+                if world and not (steps and steps[-1].get("hang")):
+                    self._run_threads(case, tel, stream, obs, steps, tr_out)
+                return obs, tr_out
         finally:
             TM.datetime = saved
+
+    # -- two threads under the deterministic scheduler -----------------------
+    def _run_threads(self, case, tel, stream, obs, steps, tr_out):
+        """After the sequential prefix case["ops"]: the two call lists case["threads"] run on two real threads under
+        harness/sched.py (a scheduling point at every line of telomere.py executed outside the lock and at every
+        acquire / release of the lock), following case["sched"] = {"first": thread, "switch": [choice points at which
+        the other thread is given the turn]}.  Observed: the order in which the calls ACQUIRE the lock (outermost
+        acquisition; = the linearisation the model is run on), the attributes at that moment (`before`) and at the
+        matching release (`after`), the transitions reported in between, the value returned.  A call that returns
+        without having taken the lock (a refusal decided on the configuration alone) takes effect when it returns:
+        the harness thread then takes the lock itself for the two snapshots."""
+        sc = case.get("sched") or {}
+        first, switches = sc.get("first", 0), set(sc.get("switch") or [])
+        last = [None]
+
+        def choose(step, enabled):
+            c = first if last[0] is None else last[0]
+            if step in switches:
+                c = 1 - c
+            if c not in enabled:
+                c = enabled[0]
+            last[0] = c
+            return c
+
+        s = sched.Scheduler((SRC,), choose)
+        # (a thread that does not reach its next scheduling point: wait long enough that a thread merely starved on a
+        # heavily loaded machine is not taken for a hang; after a confirmed hang the wait is shortened)
+        s.stall_limit = 1.0 if self.hangs_seen else 12.0
+        cur, calls = {}, []
+
+        def snap_raw():
+            r = tel._senescence_reason
+            sa, la = tel._started_at, tel._last_activity
+            return [PH[tel._phase.value], tel._telomere_length, tel._error_count, tel._operations_count,
+                    tel._renewal_count, -1 if r is None else REASON.get(r.value, 9),
+                    -1 if sa is None else (sa - BASE) // US, -1 if la is None else (la - BASE) // US]
+
+        class LinLock(sched.SchedLock):
+            def acquire(lk, blocking=True, timeout=-1):
+                r = sched.SchedLock.acquire(lk, blocking, timeout)
+                tid = lk.sched.current_tid()
+                rec = cur.get(tid) if tid is not None else None
+                if rec is not None and lk.count == 1:
+                    rec["enters"] += 1
+                    if rec["enters"] == 1:
+                        rec["before"], rec["n0"], rec["t_us"] = snap_raw(), len(stream), _Clock.us
+                        calls.append(rec)
+                return r
+
+            def release(lk):
+                tid = lk.sched.current_tid()
+                rec = cur.get(tid) if tid is not None else None
+                if rec is not None and lk.count == 1:
+                    rec["after"], rec["tr"] = snap_raw(), list(stream[rec["n0"]:])
+                sched.SchedLock.release(lk)
+
+            __enter__ = acquire
+
+            def __exit__(lk, *a):
+                lk.release()
+                return False
+
+        real_lock = tel._lock
+        tel._lock = LinLock(s, type(real_lock).__name__ == "RLock", "_lock")
+
+        def call_of(o):
+            k = o[0]
+            if k == "tick":
+                return lambda: tel.tick(o[1])
+            if k == "renew":
+                return lambda: tel.renew(o[1], o[2])
+            return {"start": tel.start, "err": tel.record_error, "hb": tel.heartbeat, "check": tel.check_timeouts,
+                    "apop": tel.trigger_apoptosis, "term": tel.terminate, "reset": tel.reset}[k]
+
+        def worker(tid, ops):
+            def run():
+                for o in ops:
+                    rec = {"op": o, "tid": tid, "enters": 0, "ret": -9, "raised": None, "sen": [], "printed": ""}
+                    cur[tid] = rec
+                    try:
+                        r = call_of(o)()
+                        rec["ret"] = -1 if r is None else (1 if r is True else 0 if r is False else -3)
+                    except sched.Deadlock:
+                        raise
+                    except ZeroDivisionError:
+                        rec["ret"], rec["raised"] = -2, "ZeroDivisionError"
+                    except Exception as e:  # noqa
+                        rec["ret"], rec["raised"] = -4, type(e).__name__
+                    if rec["enters"] == 0:
+                        with tel._lock:
+                            pass
+                    cur.pop(tid, None)
+            return run
+
+        fns = [worker(t, ops) for t, ops in enumerate(case["threads"])]
+        before_threads = set(threading.enumerate())
+        hung = False
+        try:
+            common.call_with_watchdog(lambda: s.run(fns), 60.0)
+        except common.Hang:
+            hung = True
+        tel._lock = real_lock
+        chosen = [c for c, _ in s.trace if c is not None]
+        tr_out["schedule"] = chosen
+        tr_out["lin"] = [rec["tid"] for rec in calls]
+        self._lin[json.dumps(case, sort_keys=True, default=str)] = tr_out["lin"]
+        if s.errors:
+            raise RuntimeError(f"thread error under the scheduler: {s.errors}")
+        for rec in calls:
+            if "after" not in rec:
+                break
+            row = [rec["tid"], rec["ret"]] + rec["after"] + [x for p in rec["tr"] for x in p]
+            if rec["enters"] != 1:
+                row += [-997, rec["enters"]]
+            obs.append(row)
+            steps.append({"op": rec["op"], "ret": rec["ret"], "raised": rec["raised"], "before": rec["before"],
+                          "after": rec["after"], "tr": rec["tr"], "t_us": rec["t_us"], "sen": [], "printed": "",
+                          "tid": rec["tid"], "schedule": chosen})
+        if hung or s.deadlock or s.stalled is not None:
+            self.hangs_seen += 1
+            stuck = {t: r["op"] for t, r in cur.items()}
+            obs.append([-999])
+            steps.append({"op": ["threads"], "hang": True, "before": snap_raw(), "t_us": _Clock.us,
+                          "stuck": stuck, "schedule": chosen})
+            for t in threading.enumerate():
+                if t not in before_threads and t.is_alive():
+                    t.join(0.05)
+        else:
+            done = [sum(1 for r in calls if r["tid"] == t) for t in (0, 1)]
+            obs.append([-1] + [len(case["threads"][t]) - done[t] for t in (0, 1)])
 
     # -- model input -------------------------------------------------------
     def coq_case(self, case):
         cfg = case["cfg"]
         life_us, idle_us = cfg_limits(cfg)
         c = f"(mkConfig {cz(cfg['max_ops'])} {cz(cfg['thr'])} {cbool(cfg['renew'])} {copt(life_us)} {copt(idle_us)})"
+        def op_term(o):
+            k = o[0]
+            if k == "adv":
+                return f"Advance {cz(adv_us(o))}"
+            if k == "tick":
+                return f"Tick {cz(o[1])}"
+            if k == "renew":
+                return f"Renew {copt(o[1])} {cbool(o[2])}"
+            if k == "set":
+                return {"max_ops": lambda v: f"SetMaxOps {cz(v)}", "thr": lambda v: f"SetErrThreshold {cz(v)}",
+                        "renew": lambda v: f"SetAllowRenewal {cbool(v)}",
+                        "life_s": lambda v: f"SetMaxLifetime {copt(set_us(v))}",
+                        "idle_s": lambda v: f"SetIdleTimeout {copt(set_us(v))}"}[o[1]](o[2])
+            return {"start": "Start", "err": "RecordError", "hb": "Heartbeat", "check": "CheckTimeouts",
+                    "apop": "TriggerApoptosis", "term": "Terminate", "reset": "Reset"}[k]
+
+        PC = ["Nascent", "Active", "Senescent", "Apoptotic", "Terminated"]
+        failing = any(o[0] == "cb" for o in case["ops"])
         ops = []
+        cur = "quiet_cbs"
         for o in case["ops"]:
             k = o[0]
             if k == "q":
                 continue        # read-only accessor: not an operation of the model (it must be transparent)
-            if k == "adv":
-                ops.append(f"Advance {cz(adv_us(o))}")
-            elif k == "tick":
-                ops.append(f"Tick {cz(o[1])}")
-            elif k == "renew":
-                ops.append(f"Renew {copt(o[1])} {cbool(o[2])}")
-            elif k == "set":
-                ops.append({"max_ops": lambda v: f"SetMaxOps {cz(v)}", "thr": lambda v: f"SetErrThreshold {cz(v)}",
-                            "renew": lambda v: f"SetAllowRenewal {cbool(v)}",
-                            "life_s": lambda v: f"SetMaxLifetime {copt(set_us(v))}",
-                            "idle_s": lambda v: f"SetIdleTimeout {copt(set_us(v))}"}[o[1]](o[2]))
-            else:
-                ops.append({"start": "Start", "err": "RecordError", "hb": "Heartbeat", "check": "CheckTimeouts",
-                            "apop": "TriggerApoptosis", "term": "Terminate", "reset": "Reset"}[k])
+            if k == "cb":
+                # the behaviour of the callbacks during the calls that follow (the exception class is not the model's)
+                cur = "(mkCbs " + clist([f"({PC[x]}, {PC[y]})" for x, y in o[1]]) + f" {cbool(bool(o[2]))})"
+                continue
+            ops.append(f"({cur}, {op_term(o)})" if failing else op_term(o))
         # the lock kind the translator found in the source decides whether the model predicts the hang
         if self.kind is None:
             try:
@@ -897,7 +1262,15 @@ class C09(Check):
             except Exception:
                 self.kind, self.autostart_reacquires = "UnrecognisedLock", False
         v = "(mkVariant false false)" if self.autostart_reacquires else "current"
-        return ctuple(v, c, clist(ops))
+        if "threads" in case:
+            # the model runs the linearisation the implementation's run produced (order of the lock acquisitions)
+            key = json.dumps(case, sort_keys=True, default=str)
+            if key not in self._lin:
+                self._safe_impl(case)
+            lin = self._lin.get(key, [])
+            ta, tb = (clist([op_term(o) for o in t]) for t in case["threads"])
+            return ctuple(v, c, f"(Par {clist(ops)} {ta} {tb} {clist([cbool(bool(t)) for t in lin])})")
+        return ctuple(v, c, f"({'Seq' if failing else 'Plain'} {clist(ops)})")
 
     # -- the property, on the implementation's trace ------------------------
     @staticmethod
@@ -931,6 +1304,14 @@ class C09(Check):
             o = st["op"]
             kind = o[0]
             where = f"call #{i} {o}"
+            if st.get("cb"):
+                continue            # the callbacks' behaviour changes: not a call
+            if "tid" in st:
+                where = (f"thread {'AB'[st['tid']]} {o} [threads A={case['threads'][0]} B={case['threads'][1]} after {case['ops']}; "
+                         f"schedule {st['schedule']}; #{i} in the order of the lock acquisitions]")
+            if st.get("hang") and kind == "threads":
+                return Violation("C09/hang", f"threads A={case['threads'][0]} B={case['threads'][1]} after {case['ops']}, schedule "
+                                             f"{st['schedule']}: the run does not end; calls that have not returned: {st['stuck']}")
             if st.get("hang"):
                 return Violation("C09/hang", f"{where} did not return within the watchdog time (phase before: {PHN[st['before'][0]]})")
             b, a, tr, rc = st["before"], st["after"], st["tr"], st["ret"]
@@ -944,7 +1325,12 @@ class C09(Check):
                 else:
                     cf[o[1]] = o[2]
                 mx = max(mx, cf["max_ops"])
-            if st["raised"] and (valid or st["raised"] != "ZeroDivisionError"):
+            # the exception of the caller's own callback, handed back to the caller, is not the lifecycle's failure:
+            # the call has returned control; everything the property says about the state afterwards is demanded below
+            cbr = bool(st["raised"]) and st["raised"].startswith("callback:")
+            if cbr:
+                where += f" (its callback raised {st['raised'][9:]}, handled by the caller)"
+            if st["raised"] and not cbr and (valid or st["raised"] != "ZeroDivisionError"):
                 return Violation("C09/raises", f"{where} raised {st['raised']}")
             # legal transitions, chained from the phase before to the phase after
             cur = pb
@@ -962,6 +1348,11 @@ class C09(Check):
             # TERMINATED is absorbing
             if pb == T and kind != "reset" and pa != T:
                 return Violation("C09/terminated-not-absorbing", f"{where} moved TERMINATED to {PHN[pa]}")
+            # ... to TERMINATED on termination, to APOPTOTIC on apoptosis
+            if kind == "term" and pa != T:
+                return Violation("C09/terminate-not-terminated", f"{where}: phase {PHN[pa]} after terminate()")
+            if kind == "apop" and pb != T and pa != AP:
+                return Violation("C09/apoptosis-not-apoptotic", f"{where}: phase {PHN[pa]} after trigger_apoptosis() in {PHN[pb]}")
             if kind == "tick":
                 if rc not in (0, 1) and not st["raised"]:
                     return Violation("C09/tick-return", f"{where} returned a non-bool")
@@ -975,7 +1366,8 @@ class C09(Check):
             if valid and not (0 <= a[1] <= mx):
                 return Violation("C09/length-out-of-range", f"{where}: telomere length {a[1]} outside [0, {mx}]")
             # Hayflick
-            if kind == "reset" or (kind == "renew" and rc == 1):
+            # (a renewal whose phase-change callback raised was carried out all the same: the renewal count says so)
+            if kind == "reset" or (kind == "renew" and (rc == 1 or (cbr and a[4] > b[4]))):
                 cnt = 0
                 mx = cf["max_ops"]
                 if valid and not (0 <= a[1] <= mx):
@@ -992,7 +1384,7 @@ class C09(Check):
             # error limits force senescence
             if kind == "err" and pb == A:
                 hit = a[2] >= cf["thr"] or (a[3] > 0 and 2 * a[2] >= a[3])
-                if hit and (pa != S or rc != 0):
+                if hit and (pa != S or (rc != 0 and not cbr)):
                     return Violation("C09/error-limit-not-enforced", f"{where}: errors {a[2]} (threshold {cf['thr']}, operations {a[3]}) but phase {PHN[pa]}, returned {rc}")
             # time limits force senescence
             if kind == "check" and pb == A:
@@ -1001,7 +1393,7 @@ class C09(Check):
                 hit = (life and b[6] >= 0 and nowus - b[6] >= life) or (idle and b[7] >= 0 and nowus - b[7] >= idle)
                 if (life or idle) and (b[6] < 0 or b[7] < 0):
                     return Violation("C09/active-without-start-time", f"{where}: ACTIVE with no start/activity time")
-                if hit and (pa != S or rc != 0):
+                if hit and (pa != S or (rc != 0 and not cbr)):
                     def td(us):
                         return str(_dt.timedelta(microseconds=us))
                     how = "; ".join(f"{nm} for {td(nowus - since)}, {nm2} limit {td(lim)}"
@@ -1037,10 +1429,24 @@ class C09(Check):
                        + ("" if lim % 1000000 == 0 else "/fractional"))
         day_us = DAY * 1000000
         renew_now = case["cfg"]["renew"]
+        if "threads" in case:
+            ks.add("two-threads")
+            ks.add("two-threads/switches=%d" % len((case.get("sched") or {}).get("switch") or []))
+            lin = trace.get("lin") or []
+            ks.add("two-threads/lin=" + ("".join("AB"[t] for t in lin) if len(lin) <= 3 else "4+calls"))
         for s in trace["steps"]:
+            if s.get("cb"):
+                if s["op"][1] or s["op"][2]:
+                    ks.add("callbacks=raising")
+                    ks.add("callback-exception=" + s["op"][3])
+                continue
             if s.get("hang"):
                 ks.add("hang")
                 continue
+            if (s.get("raised") or "").startswith("callback:"):
+                ks.add("callback-raised-in=" + s["op"][0] + "/" + "+".join(f"{PHN[x]}->{PHN[y]}" for x, y in s["tr"]))
+            if "tid" in s:
+                ks.add("two-threads/op=" + s["op"][0])
             if s["op"][0] == "set":
                 ks.add("set=" + s["op"][1])
                 if s["op"][1] == "renew":
@@ -1092,7 +1498,18 @@ class C09(Check):
         return sorted(ks)
 
     def shrink(self, case, pred):
+        if "threads" in case:
+            ops = common.shrink_list(case["ops"], lambda oo: pred({**case, "ops": oo}))
+            return {**case, "ops": ops}
         ops = common.shrink_list(case["ops"], lambda oo: len(oo) > 0 and pred({**case, "ops": oo}))
+        # a failing callback: as few (old, new) pairs as will do
+        for i, o in enumerate(ops):
+            if o[0] == "cb" and len(o[1]) > 1:
+                for cand in [[]] + [[p] for p in o[1]]:
+                    trial = ops[:i] + [["cb", cand, o[2], o[3]]] + ops[i + 1:]
+                    if pred({**case, "ops": trial}):
+                        ops = trial
+                        break
         return {**case, "ops": ops}
 
 
